@@ -15,7 +15,7 @@ from pathlib import Path
 
 VERIF = Path(__file__).resolve().parent.parent
 REPO = os.environ.get("VERIF_REPO", "/repo")
-OUT = VERIF / "out"
+OUT = Path(os.environ.get("VERIF_OUT", VERIF / "out"))
 # seed / mutant runs point this at scratch so that the committed evidence only ever comes from /repo itself
 EVID = Path(os.environ.get("VERIF_EVIDENCE_DIR", str(VERIF / "evidence")))
 TICKS_PER_MS = 1000
@@ -185,7 +185,7 @@ class Check:
         for k in known:
             if k["key"] in printed_known:
                 print(f"KNOWN-FINDING: property={self.pid} {k['key']}: {k['what']}")
-        rdir = OUT / "replay" / self.pid
+        rdir = OUT / "replay" / f"{self.pid}-{self.tier}"      # the two tiers may run at the same time
         rdir.mkdir(parents=True, exist_ok=True)
         for f in rdir.glob("*.json"):
             f.unlink()
